@@ -612,7 +612,7 @@ func tryReplay(o *Obligation, repo, scratch string) (string, bool) {
 				break
 			}
 			nm := fmt.Sprintf("old%d", i)
-			sb.WriteString(fmt.Sprintf("\t%s := %s(%s)\n", nm, od.Fn, strings.Join(argExprs, ", ")))
+			sb.WriteString(fmt.Sprintf("\t%s := %s(%s)\n\t_ = %s\n", nm, od.Fn, strings.Join(argExprs, ", "), nm))
 			oldNames = append(oldNames, nm)
 		}
 	}
@@ -849,7 +849,7 @@ func corpusTestFor(o *Obligation, fn *ssa.Function, gsets []string, own bool) st
 				break
 			}
 			nm := fmt.Sprintf("old%d", i)
-			fmt.Fprintf(&sb, "\t\t\t%s := %s(%s)\n", nm, od.Fn, strings.Join(names, ", "))
+			fmt.Fprintf(&sb, "\t\t\t%s := %s(%s)\n\t\t\t_ = %s\n", nm, od.Fn, strings.Join(names, ", "), nm)
 			oldNames = append(oldNames, nm)
 		}
 	}
